@@ -630,6 +630,11 @@ def run_atom(channel: str, spec):
         # ISLa's z3_solve leaves this global Z3 parameter toggled after an
         # `unknown`; threads in a forked worker are not wanted
         _z3().set_param("parallel.enable", False)
+    if got == "raises" and expected is None and (detail or "").startswith("AssertionError"):
+        # Z3 (the oracle's call and ISLa's own) has no verdict for this atom and
+        # ISLa's to_bool() assertion on the UNKNOWN result fires: there is no "Z3's
+        # truth value" to return, the property does not speak about this case
+        return "inconclusive", expected, got, "Z3 answers unknown; ISLa asserts on the unknown verdict: " + detail
     if got == "raises":
         return "violation-raises", expected, got, detail
     if expected is None:
